@@ -23,7 +23,8 @@ def load_event(s):
     name = data['name']
     args = data['args']
     kwargs = data['kwargs']
-    e = Event.create(name, *args, **kwargs)
+    # not Event.create(name, ...): its own parameter names may be keywords of the event
+    e = type(Event)(name, (Event,), {})(*args, **kwargs)
 
     e.success = bool(data['success'])
     e.failure = bool(data['failure'])
